@@ -34,6 +34,11 @@ void harness(void) {
     VP_IN_ARR(uint8_t, junk, MAXSIZE);
     /* ground truth: number of distinct values and sum of their tagged lengths */
     unsigned uniq = 0, dictbytes = 0;
+#ifdef LIT
+    uniq = N; /* N distinct literal values by construction */
+    for (unsigned i = 0; i < N; i++)
+        dictbytes += ref_tagged_len(v[i]);
+#else
     for (unsigned i = 0; i < N; i++) {
         int seen = 0;
         for (unsigned j = 0; j < i; j++)
@@ -44,6 +49,7 @@ void harness(void) {
             dictbytes += ref_tagged_len(v[i]);
         }
     }
+#endif
 #ifdef LIT
     unsigned truth = ref_tagged_len(uniq) + dictbytes + ref_tagged_len(N) + N * ref_bytes(uniq - 1);
 #else
